@@ -1,5 +1,6 @@
 /-
-Driver for C19 (stop-and-restart preserves the workflow state): `Sched2` correspondence + two judges that read
+Driver for C19 (stop-and-restart preserves the workflow state): `Sched2B` (= `Sched2` + broadcast store and its
+database queue) correspondence + two judges that read
 only the REAL scheduler's observations (and the op list / instance graph of the case).
 
 * snapshot judge — for every `restart` op: the observation of the stopped scheduler (before) against the
@@ -7,14 +8,14 @@ only the REAL scheduler's observations (and the op list / instance graph of the 
   same pooled instances; status (preparing ↦ waiting), submit number (preparing ↦ one less, and the first launch
   of that instance after the restart carries the old number), flow numbers, held state, completed outputs,
   prerequisite satisfaction; hold point, `tasks_to_hold`, stop point (requested stops), stop task, record of
-  absolute outputs, flow counter.
+  absolute outputs, flow counter, broadcasts (the whole store, item by item).
 * differential judge — when the case carries the uninterrupted run of the same workflow and job outcomes
   (`base`): the set of launched instances and the final outputs of every instance are the same.
 
 Two deviations of the unchanged code from the property text are recorded findings (findings/C19.json); their
 `why` starts with the finding key.  Any other failure is reported first.
 -/
-import CylcModel.Sched2Json
+import CylcModel.Sched2BJson
 open Lean CylcModel.Drv CylcModel.Sched2
 
 namespace CylcModel.DrvC19
@@ -149,7 +150,17 @@ def judgeRestart (idx : Nat) (b a : Json) (later : List (Json × Json)) : List F
     if fld a "flow_counter" != fld b "flow_counter" then
       [⟨false, s!"{at_}: flow counter {(fld b "flow_counter").compress} restored as {(fld a "flow_counter").compress}", none⟩]
     else []
-  f0 ++ perTask ++ g1 ++ g2 ++ g3 ++ g4 ++ g5 ++ g6
+  -- broadcasts: nothing is expired by the restart itself (the first main loop after it does that), so the
+  -- restarted scheduler holds exactly the broadcasts of the stopped one
+  let g7 : List Fail :=
+    if fld a "bcast" != fld b "bcast" then
+      let bb := (jArrField? b "bcast").getD []
+      let ba := (jArrField? a "bcast").getD []
+      let lost := bb.filter fun x => !ba.contains x
+      let extra := ba.filter fun x => !bb.contains x
+      [⟨false, s!"{at_}: broadcasts not restored: lost {(Json.arr lost.toArray).compress}, new {(Json.arr extra.toArray).compress}", none⟩]
+    else []
+  f0 ++ perTask ++ g1 ++ g2 ++ g3 ++ g4 ++ g5 ++ g6 ++ g7
 
 /-- all restarts of a run: ops[k] yields obs[k+1] -/
 def judgeSnapshots (ops obs : List Json) : List Fail :=
@@ -221,7 +232,10 @@ def wfStop (g : Graph) : Bool := g.stopPoint == some (g.cfgStop.getD g.fcp)
 
 def handle (i o : Json) : Except String Reply := do
   if let some r := crashReply? i then return r
-  let c ← parseCase i
+  let c ← Sched2B.parseCase i
+  if !c.ops.all Sched2B.opOk then
+    return { model := Json.mkObj [("hypothesis", Json.str "a broadcast setting with several items or an unrepresentable key")],
+             holds := true }
   if !wfStop c.graph then
     -- the theorem does not apply to this run: never silently
     return { model := Json.mkObj [("hypothesis", Json.str "WFStop violated: start-up stop point is not the configured one")],
@@ -230,11 +244,11 @@ def handle (i o : Json) : Except String Reply := do
   let snap := judgeSnapshots ops (obsList o)
   let fails := snap ++ judgeDiff i (obsList o) (snap.filterMap (·.lostOutputs))
   match fails.find? (!·.known) with
-  | some f => return { model := modelObs c, holds := false, why := f.msg }
+  | some f => return { model := Sched2B.modelObs c, holds := false, why := f.msg }
   | none =>
     match fails with
-    | f :: _ => return { model := modelObs c, holds := false, why := f.msg }
-    | [] => return { model := modelObs c, holds := true }
+    | f :: _ => return { model := Sched2B.modelObs c, holds := false, why := f.msg }
+    | [] => return { model := Sched2B.modelObs c, holds := true }
 
 end CylcModel.DrvC19
 
